@@ -24,6 +24,96 @@ HEAVY = {"msm", "msm_bounded", "msm_le_bits", "msm_bytes", "mulc", "msm_negpair"
 NO_TAMPER = {"pub"}
 
 
+P_NATIVE = 0x73eda753299d7d483339d80809a1d80553bda402fffe5bfeffffffff00000001
+
+
+def nat(n):
+    out = []
+    while n:
+        out.append(n & 255)
+        n >>= 8
+    return out
+
+
+def sqrt_mod(a, p):
+    """a square root of a modulo the odd prime p, or None (Tonelli-Shanks)"""
+    a %= p
+    if a == 0:
+        return 0
+    if pow(a, (p - 1) // 2, p) != 1:
+        return None
+    q, s = p - 1, 0
+    while q % 2 == 0:
+        q //= 2
+        s += 1
+    z = next(n for n in range(2, 100) if pow(n, (p - 1) // 2, p) == p - 1)
+    m, c, t, r = s, pow(z, q, p), pow(a, q, p), pow(a, (q + 1) // 2, p)
+    while t != 1:
+        i, t2 = 0, t
+        while t2 != 1:
+            t2 = t2 * t2 % p
+            i += 1
+        b = pow(c, 1 << (m - i - 1), p)
+        m, c, t, r = i, b * b % p, t * b * b % p, r * b % p
+    return r
+
+
+def htc_half(rep, tier, wd, rng, consts_hint=None):
+    """Hash to the Jubjub curve: map_to_curve and hash_to_curve, off-circuit and in-circuit, against HashToCurve.tla."""
+    q = tier == "quick"
+    p = P_NATIVE
+    us = [0, 1, 2, p - 1, p - 2, (p - 1) // 2, (p + 1) // 2, (1 << 64) - 1, 1 << 128] + [rng.randrange(p) for _ in range(6 if q else 60)]
+    # exceptional inputs of the Shallue-van de Woestijne map: u^2 g(Z) = 1 or -1 (the inverse in the map is of zero); Z = -2 on this curve,
+    # g(Z) is read from a probe run of the driver
+    scen = [{"op": "mtc", "inputs": [nat(u)]} for u in us]
+    probe = os.path.join(wd, "htc_probe.ndjson")
+    vlib.write_ndjson(probe, [{"op": "mtc", "inputs": [nat(1)]}])
+    pout = os.path.join(wd, "htc_probe_out.ndjson")
+    vlib.run_vh(["c06h", probe, pout])
+    c1 = sum(d << (8 * i) for i, d in enumerate(vlib.read_ndjson(pout)[1]["htc"]["c1"]))
+    exceptional = []
+    for sgn in (1, -1):
+        r = sqrt_mod(sgn * pow(c1, -1, p), p)
+        if r is not None:
+            exceptional += [r, p - r]
+    scen += [{"op": "mtc", "inputs": [nat(u)]} for u in exceptional]
+    for n in ([0, 1, 2, 3, 5] if q else range(0, 9)):
+        for _ in range(1 if q else 4):
+            scen.append({"op": "htc", "inputs": [nat(rng.randrange(p)) if i % 3 else nat(rng.choice([0, 1, p - 1])) for i in range(n)]})
+    for i, sc in enumerate(scen):
+        if i % (5 if q else 2) == 0:
+            sc["tamper_at"] = [0, 30, 150, 400, 600, 850, 999] if q else [0, 5, 30, 80, 150, 250, 400, 500, 600, 750, 850, 950, 999]
+            sc["faults"] = ["plus1", "zero"]
+    chunks = [scen[i::vlib.NCPU] for i in range(vlib.NCPU)]
+    jobs = []
+    for i, ch in enumerate(chunks):
+        if ch:
+            sp = os.path.join(wd, f"htcscen_{i}.ndjson")
+            vlib.write_ndjson(sp, ch)
+            jobs.append(["c06h", sp, os.path.join(wd, f"htctrace_{i}.ndjson")])
+    vlib.run_vh_parallel(jobs, timeout=7200)
+    row_sets = [vlib.read_ndjson(j[2]) for j in jobs]
+    evs = [r for rows in row_sets for r in rows if r["ev"] == "Htc"]
+    good, rejected, st = vlib.validate_many(row_sets, "Htc_Trace.tla", "Htc_Trace.cfg", "C06", "htc", max_rejects=6, start_ev="Htc")
+    for run_rows, line, e in rejected:
+        rep.violation({"curve": "jubjub", "op": "hash_to_curve" if e["op"] == "htc" else "map_to_curve", "status": e["status"], "tampered": e["tampered"]},
+                      f"jubjub {e['op']} inputs={len(e['inputs'])} tamper={e.get('tamper')} status={e['status']}: differs from HashToCurve.tla ({e['detail'][:80]})",
+                      {"scenario": {"htc": True, "op": e["op"], "inputs": e["inputs"]}, "event": {k: e[k] for k in ("status", "tamper", "nassign")}})
+    if not evs:
+        raise vlib.ToolError("vacuity: no hash-to-curve run recorded")
+    demo = next((json.loads(json.dumps(e)) for e in evs if not e["tampered"] and e["status"] == "sat"), None)
+    if demo:
+        demo["cpu"]["x"] = [(demo["cpu"]["x"][0] if demo["cpu"]["x"] else 0) ^ 1] + demo["cpu"]["x"][1:]
+        tp = os.path.join(wd, "htc_binding_demo.ndjson")
+        vlib.write_ndjson(tp, [r for r in row_sets[0] if r["ev"] != "Htc"] + [demo])
+        acc, _, _ = vlib.validate_trace(tp, "Htc_Trace.tla", "Htc_Trace.cfg", "C06")
+        if acc:
+            raise vlib.ToolError("binding demonstration failed: a corrupted hash-to-curve result was accepted")
+    return {"htc_runs": len(evs), "htc_map_inputs": len(us) + len(exceptional), "htc_exceptional_inputs": len(exceptional),
+            "htc_tampered_runs": sum(1 for e in evs if e["tampered"]),
+            "htc_tampered_but_satisfiable": sum(1 for e in evs if e["tampered"] and e["status"] == "sat"), "htc_runs_validated": len(good)}
+
+
 def run(tier):
     rep = vlib.Report("C06", tier, "fault_enumeration")
     wd = vlib.workdir("C06")
@@ -114,6 +204,9 @@ def run(tier):
     for e in ops:
         k = (e["curve"], "tamper" if e.get("tamper") else "honest", e["status"])
         by[k] = by.get(k, 0) + 1
+    hstats = htc_half(rep, tier, wd, rng)
+    log(f"[C06] hash to curve: {hstats}")
+    rep.coverage.update(hstats)
     rep.coverage.update({
         "states": states, "transitions": gen, "scenarios_enumerated": universe,
         "traces_validated_against_impl": len(good),
@@ -133,7 +226,7 @@ def run(tier):
     rep.assumptions += ["satisfiability judged by MockProver; single consistent fault per run, sampled assignment indices",
                         "subgroup membership of exposed points is checked by TLC only on tampered satisfiable runs (honest runs are "
                         "compared with the named multiples of G)",
-                        "hash-to-curve is not covered by the specification (see DESIGN.md)"]
+                        "hash to curve: square roots by Tonelli-Shanks in the model; Z is taken from the code and checked against the RFC 9380 criteria"]
     return rep.finish()
 
 
@@ -153,6 +246,21 @@ def classify(e):
 def replay(path):
     d = json.load(open(path))
     wd = vlib.workdir("C06")
+    if d["replay"]["scenario"].get("htc"):
+        sc = {"op": d["replay"]["scenario"]["op"], "inputs": d["replay"]["scenario"]["inputs"]}
+        t = d["replay"]["event"].get("tamper")
+        if t:
+            sc["tamper_at"], sc["faults"] = [t["i"] * 1000 // max(1, d["replay"]["event"]["nassign"])], [t["fault"]]
+        sp = os.path.join(wd, "replay_htcscen.ndjson")
+        vlib.write_ndjson(sp, [sc])
+        tp = os.path.join(wd, "replay_htctrace.ndjson")
+        vlib.run_vh(["c06h", sp, tp])
+        good, rejected, _ = vlib.validate_runs(vlib.read_ndjson(tp), "Htc_Trace.tla", "Htc_Trace.cfg", "C06", "replay", start_ev="Htc")
+        if rejected:
+            log(f"VIOLATION property=C06 replay={path}")
+            return 1
+        log("replay: accepted (violation not reproduced)")
+        return 0
     sp = os.path.join(wd, "replay_scen.ndjson")
     sc = {k: v for k, v in d["replay"]["scenario"].items() if v is not None}
     vlib.write_ndjson(sp, [sc])
